@@ -183,6 +183,11 @@ def value_params(tier, seed):
                             {'src': "{'k': vf.subcls.%s%s(%s)}" % (flavour, b.capitalize(), bv)}))
     out.append(('call:nested', {'src': "vf.props.c02.Box([vf.props.c02.Box(1, tag='two words'), {'a': vf.props.c02.Box((1,))}])"}))
     out.append(('call:kw-long', {'src': "vf.props.c02.Box('%s', tag=[1, 2, 3])" % ('word ' * 12)}))
+    words = 'word ' * 14
+    out.append(('call:kw-long-str', {'src': "vf.props.c02.Box(1, tag='%s')" % words}))
+    out.append(('namespace:long-str', {'src': "types.SimpleNamespace(name='%s', x=1)" % words}))
+    out.append(('namedtuple:long-str', {'src': "vf.stdvals.Point(1, '%s')" % words}))
+    out.append(('call:kw-long-bytes', {'src': "[vf.props.c02.Box(0, tag=b'%s')]" % words}))
     out.append(('structtime', {'src': 'time.gmtime(0)'}))
     out.append(('function', {'src': '[sorted, vf.stdvals.fn, dict, collections.OrderedDict]'}))
     return out
